@@ -84,6 +84,10 @@ func NewNegotiator(cfg func(*Session, *StreamConfig) StreamConfig) Negotiator {
 type negotiatorState struct {
 	doRestart bool
 	cancelTee context.CancelFunc
+	// started is set once features have been negotiated for the first time. The
+	// first call of the negotiator may only install the tee, so "no cached state
+	// yet" does not mean that this is the first features list.
+	started bool
 }
 
 func negotiator(f func(*Session, *StreamConfig) StreamConfig) Negotiator {
@@ -204,7 +208,9 @@ func negotiator(f func(*Session, *StreamConfig) StreamConfig) Negotiator {
 		}
 
 		cfg = f(s, &cfg)
-		mask, rw, err = negotiateFeatures(ctx, s, data == nil, websocket, cfg.Features)
+		first := !nState.started
+		nState.started = true
+		mask, rw, err = negotiateFeatures(ctx, s, first, websocket, cfg.Features)
 		nState.doRestart = rw != nil
 		return mask, rw, nState, err
 	}
